@@ -586,18 +586,21 @@ def resample(sig, old=1, new=1, order=3, zero=0.):
   data.extend(sig.take(rint(threshold)))
   idx = int(threshold)
   isig = iter(sig)
-  if isinstance(step, Iterable):
-    step = iter(step)
-    while True:
-      yield lagrange(enumerate(data))(idx)
-      idx += next(step)
-      while idx > threshold:
-        data.append(next(isig))
-        idx -= 1
-  else:
-    while True:
-      yield lagrange(enumerate(data))(idx)
-      idx += step
-      while idx > threshold:
-        data.append(next(isig))
-        idx -= 1
+  try:
+    if isinstance(step, Iterable):
+      step = iter(step)
+      while True:
+        yield lagrange(enumerate(data))(idx)
+        idx += next(step)
+        while idx > threshold:
+          data.append(next(isig))
+          idx -= 1
+    else:
+      while True:
+        yield lagrange(enumerate(data))(idx)
+        idx += step
+        while idx > threshold:
+          data.append(next(isig))
+          idx -= 1
+  except StopIteration: # No more input (or no more time step) data
+    return
